@@ -4,46 +4,178 @@ import (
 	"flag"
 	"fmt"
 	"os"
+	"path/filepath"
 	"sort"
+	"strconv"
 	"strings"
 
 	"golang.org/x/tools/go/ssa"
 )
 
+type checkFn func(a *Analysis, rep *Report, tier string)
+
+type propInfo struct {
+	level string
+	fn    checkFn
+}
+
+var props = map[string]propInfo{}
+
+func register(id, level string, fn checkFn) { props[id] = propInfo{level, fn} }
+
+func init() {
+	register("C01", "other", func(a *Analysis, r *Report, t string) { a.CheckC01(r) })
+	register("C02", "other", func(a *Analysis, r *Report, t string) { a.CheckC02(r) })
+	register("C03", "proof", func(a *Analysis, r *Report, t string) { a.CheckC03(r, t) })
+}
+
 func main() {
-	repo := flag.String("repo", "/repo", "repository root")
-	dump := flag.String("dump", "", "dump paths of functions whose name contains this string")
+	repo := flag.String("repo", "/repo", "repository root (its current working tree is analysed)")
+	verif := flag.String("verif", "/verif", "verification directory (golden tables, evidence, known findings)")
+	prop := flag.String("property", "", "property id (C01..C20)")
+	tier := flag.String("tier", "quick", "quick | thorough")
+	dump := flag.String("dump", "", "debug: dump paths of functions whose name contains this string")
+	layouts := flag.Bool("layouts", false, "debug: print extracted layouts of every codec type")
+	emit := flag.Bool("emit-golden", false, "write golden/golden.json from the current tree (done once, by hand)")
+	replay := flag.String("replay", "", "re-run the rule instance recorded in this violation file")
 	flag.Parse()
+	goldenDir = filepath.Join(*verif, "golden")
+
+	if *replay != "" {
+		os.Exit(doReplay(*repo, *verif, *replay))
+	}
 	p, err := Load(LoadOptions{Dir: *repo})
 	if err != nil {
-		fmt.Fprintln(os.Stderr, "LOAD ERROR:", err)
+		fmt.Fprintln(os.Stderr, "CHECK-ERROR: cannot load/type-check the repository:", err)
 		os.Exit(2)
 	}
 	if *dump != "" {
-		var fns []*ssa.Function
-		for fn := range p.AllFuncs {
-			if p.InModule(fn) && strings.Contains(fn.String(), *dump) && fn.Blocks != nil && !p.IsTestFile(fn.Pos()) {
-				fns = append(fns, fn)
+		debugDump(p, *dump)
+		return
+	}
+	u, err := Discover(p)
+	if err != nil {
+		fmt.Fprintln(os.Stderr, "CHECK-ERROR: universe discovery:", err)
+		os.Exit(2)
+	}
+	a := NewAnalysis(p, u)
+	if *layouts {
+		debugLayouts(a)
+		return
+	}
+	if *emit {
+		if err := a.EmitGolden(filepath.Join(goldenDir, "golden.json")); err != nil {
+			fmt.Fprintln(os.Stderr, "emit-golden:", err)
+			os.Exit(2)
+		}
+		fmt.Println("wrote", filepath.Join(goldenDir, "golden.json"))
+		return
+	}
+	os.Exit(runProperty(a, *verif, *prop, *tier))
+}
+
+func runProperty(a *Analysis, verif, prop, tier string) int {
+	pi, ok := props[prop]
+	if !ok {
+		fmt.Fprintf(os.Stderr, "CHECK-ERROR: unknown property %q\n", prop)
+		return 2
+	}
+	seed, _ := strconv.Atoi(os.Getenv("VERIF_SEED"))
+	rep := NewReport(prop, pi.level, tier, seed)
+	rep.Notes = append(rep.Notes, "configuration: "+a.P.Config, "analysis is deterministic; VERIF_SEED is recorded but unused")
+	kf, err := loadKnown(filepath.Join(verif, "known_findings.json"))
+	if err != nil {
+		fmt.Fprintln(os.Stderr, "CHECK-ERROR:", err)
+		return 2
+	}
+	func() {
+		defer func() {
+			if r := recover(); r != nil {
+				rep.Fatal = append(rep.Fatal, fmt.Sprintf("analyser panic: %v", r))
+				if os.Getenv("FPCHECK_DEBUG") != "" {
+					panic(r)
+				}
+			}
+		}()
+		pi.fn(a, rep, tier)
+	}()
+	cmd := fmt.Sprintf("fpcheck -repo %s -property %s -tier %s", a.P.RepoDir, prop, tier)
+	return rep.Finish(verif, kf, cmd)
+}
+
+func doReplay(repo, verif, file string) int {
+	base := filepath.Base(file)
+	i := strings.Index(base, "-")
+	if i < 0 {
+		fmt.Fprintln(os.Stderr, "not a violation file:", file)
+		return 2
+	}
+	prop := base[:i]
+	b, err := os.ReadFile(file)
+	if err != nil {
+		fmt.Fprintln(os.Stderr, err)
+		return 2
+	}
+	fmt.Printf("recorded violation:\n%s\nre-running %s on the current tree:\n", b, prop)
+	p, err := Load(LoadOptions{Dir: repo})
+	if err != nil {
+		fmt.Fprintln(os.Stderr, "CHECK-ERROR:", err)
+		return 2
+	}
+	u, err := Discover(p)
+	if err != nil {
+		fmt.Fprintln(os.Stderr, "CHECK-ERROR:", err)
+		return 2
+	}
+	return runProperty(NewAnalysis(p, u), verif, prop, "quick")
+}
+
+func debugDump(p *Program, pat string) {
+	u, _ := Discover(p)
+	var fns []*ssa.Function
+	for fn := range p.AllFuncs {
+		if p.InModule(fn) && strings.Contains(fn.String(), pat) && fn.Blocks != nil && !p.IsTestFile(fn.Pos()) {
+			fns = append(fns, fn)
+		}
+	}
+	sort.Slice(fns, func(i, j int) bool { return fns[i].String() < fns[j].String() })
+	for _, fn := range fns {
+		e := NewEngine(p)
+		e.IsCodecMethod = func(f *ssa.Function) bool { return f != fn && u != nil && u.IsCodecMethod(f) }
+		paths, err := e.AnalyzeRoot(fn, nil)
+		fmt.Printf("=== %s (%d paths) err=%v\n", fn, len(paths), err)
+		for i, pa := range paths {
+			fmt.Printf(" path %d [%s]: ret=%s\n   conds: %s\n", i, pathKind(pa), prettyVals(pa.Ret), condString(pa.Conds))
+			for _, ev := range pa.Events {
+				if ev.Kind == EvLoadGlobal {
+					continue
+				}
+				fmt.Printf("   %s  @%s\n", ev, p.Pos(ev.Pos))
 			}
 		}
-		sort.Slice(fns, func(i, j int) bool { return fns[i].String() < fns[j].String() })
-		for _, fn := range fns {
-			e := NewEngine(p)
-			e.IsCodecMethod = func(f *ssa.Function) bool {
-				return f != fn && f.Signature.Recv() != nil && (f.Name() == "Encode" || f.Name() == "Decode")
-			}
-			paths, err := e.AnalyzeRoot(fn, nil)
-			fmt.Printf("=== %s (%d paths) err=%v\n", fn, len(paths), err)
-			for i, pa := range paths {
-				var cs []string
-				for _, c := range pa.Conds {
-					cs = append(cs, c.String())
-				}
-				fmt.Printf(" path %d: ret=%s panic=%v trunc=%q\n   conds: %s\n", i, prettyVals(pa.Ret), pa.Panic, pa.Trunc, strings.Join(cs, " && "))
-				for _, ev := range pa.Events {
-					fmt.Printf("   %s  @%s\n", ev, p.Pos(ev.Pos))
-				}
-			}
+	}
+}
+
+func debugLayouts(a *Analysis) {
+	u := a.U
+	fmt.Printf("types=%d tables=%d prims=%d services=%d\n", len(u.Types), len(u.Tables), len(u.Prims), len(u.Services))
+	nreg := 0
+	for _, t := range u.Tables {
+		nreg += len(t.Regs)
+		fmt.Printf("table %s key=%s regs=%d registrar=%d lookups=%d other=%d\n", t.Name, t.KeyType, len(t.Regs), len(t.Registrar), len(t.Lookups), len(t.OtherRefs))
+	}
+	fmt.Println("registrations:", nreg)
+	for _, s := range u.Services {
+		fmt.Printf("service %s name=%q\n", s.Type.Obj().Name(), s.Name)
+	}
+	fmt.Println("registry startup assumption:", a.RegistryStartup, a.RegistryMutCall)
+	for _, r := range a.AllResults() {
+		fmt.Printf("== %s encPaths=%d decPaths=%d encOK=%d decOK=%d pruned=%d errs=%v %v\n", r.CT.Name, len(r.EncPaths), len(r.DecPaths), len(r.Enc), len(r.Dec), r.Pruned, r.EncErr, r.DecErr)
+		for _, pl := range r.Enc {
+			fmt.Printf("  ENC [%s] bodynil=%v\n      %s\n", pl.Conds, pl.BodyNil, pl.Layout.Canon())
+		}
+		for _, pl := range r.Dec {
+			fmt.Printf("  DEC [%s]\n      %s\n", pl.Conds, pl.Layout.Canon())
 		}
 	}
 }
